@@ -158,6 +158,14 @@ def _plan_vti(tier, seed):
                               "upd": UPDATES[int(rng.integers(len(UPDATES)))], "path": PATHS[int(rng.integers(len(PATHS)))],
                               "stale": bool(rng.integers(2)), "r": r, "g": g})
                 g += 1
+    # arrays beyond 2^18 values (more than 1 MiB of raw data: block-wise encoders show here)
+    for bi, n in enumerate([[520, 511, 0]] + ([] if tier == "quick" else [[70, 64, 60], [1, 270000, 0]])):
+        rng = rng_for(seed, "c20-plan-vti-big", bi)
+        cl = _classes(n, rng)
+        order = rng.permutation(len(cl))
+        for g in range(2 if tier == "quick" else 4):
+            cases.append({"t": "vti", "n": n, "arr": [cl[int(order[g])]], "ow": bool(g % 2), "scale": SCALES[int(rng.integers(len(SCALES)))],
+                          "iters": 1, "upd": UPDATES[0], "path": PATHS[0], "stale": False, "r": 0, "g": 1000 + g})
     return cases
 
 
